@@ -154,6 +154,11 @@ def gen_live(ctx, per_variant, n_match):
             flt = gen_filter(r, pool)
             peers = sorted(set(r.choice(pool) for _ in range(r.randrange(2, 6))))
             lines.append(f'{api} {variant} {ctor} 127.0.0.1 {flt} {",".join(peers)}')
+    # boundary values of the set filter through the Rust API constructors: empty, emptied again, one element
+    for api, variant, ctor in VARIANTS:
+        if api == 'rust':
+            for flt in ('emptyset', 'insrem=127.0.0.1', 'insrem=127.0.0.2+127.0.0.3', 'set=127.0.0.2', 'set=127.0.0.1'):
+                lines.append(f'{api} {variant} {ctor} 127.0.0.1 {flt} 127.0.0.1,127.0.0.2')
     # connection SEQUENCES to one listener: the same stranger again and again, strangers alternating, permitted peers in
     # between; every connection is judged on its own (history-free)
     seqs = [('exact=127.0.0.1', '127.0.0.2,127.0.0.2,127.0.0.2'),
@@ -207,6 +212,8 @@ def spec_admits(flt, peer):
     """independent reading of the property's four filter kinds"""
     if flt == 'any':
         return True
+    if flt == 'emptyset' or flt.startswith('insrem='):
+        return False            # a set admits exactly its members: the empty set admits nobody
     k, v = flt.split('=', 1)
     if k == 'exact':
         return ipaddress.ip_address(v) == peer
@@ -229,6 +236,8 @@ def coq_ip(p):
 def coq_filter(flt):
     if flt == 'any':
         return 'FAny'
+    if flt == 'emptyset' or flt.startswith('insrem='):
+        return 'FSet []'
     k, v = flt.split('=', 1)
     if k == 'exact':
         return f'FExact ({coq_ip(ipaddress.ip_address(v))})'
